@@ -114,6 +114,15 @@ func outputQueryAndErrPos(query string, pos int, adjust int) string {
 	qlen := len(tquery)
 	if pos == -1 {
 		pos = qlen
+	} else {
+		// pos is an offset into query, the text shown is the trimmed query
+		pos -= strings.Index(query, tquery)
+		if pos < 0 {
+			pos = 0
+		}
+		if pos > qlen {
+			pos = qlen
+		}
 	}
 	trimLeft := false
 	trimRight := false
